@@ -140,14 +140,28 @@ def hasRef (k : Char) : List (Tok × Str) → Bool
 
 /-! ### `eval()` splicing -/
 
-/-- a matcher text with `eval(name)` occurrences: (text before, name) …, then the text after the last one -/
-def renderEvals : List (Str × Str) → Str → Str
+/-- one `eval( name )` occurrence with its layout: the text before it, the white space between `eval` and `(`,
+    after `(`, and before `)` -/
+structure EvalCall where
+  pre : Str
+  ws1 : Str
+  ws2 : Str
+  name : Str
+  ws3 : Str
+  deriving DecidableEq, Repr, Inhabited
+
+/-- the same call written without any white space -/
+def EvalCall.tight (c : EvalCall) : EvalCall := { c with ws1 := [], ws2 := [], ws3 := [] }
+
+/-- a matcher text with `eval(name)` occurrences, then the text after the last one -/
+def renderEvals : List EvalCall → Str → Str
   | [], tail => tail
-  | (pre, name) :: rest, tail => pre ++ (evalLit ++ (name ++ ')' :: renderEvals rest tail))
+  | c :: rest, tail =>
+    c.pre ++ (evalWord ++ (c.ws1 ++ '(' :: (c.ws2 ++ (c.name ++ (c.ws3 ++ ')' :: renderEvals rest tail)))))
 
 /-- the text `replace_eval` must produce -/
-def spliced : List (Str × Str) → List Str → Str → Str
-  | (pre, _) :: rest, r :: rs, tail => pre ++ ('(' :: (r ++ ')' :: spliced rest rs tail))
+def spliced : List EvalCall → List Str → Str → Str
+  | c :: rest, r :: rs, tail => c.pre ++ ('(' :: (r ++ ')' :: spliced rest rs tail))
   | _, _, tail => tail
 
 /-- the literal and the text differ at a position both have -/
@@ -155,21 +169,36 @@ def mismatch : Str → Str → Bool
   | p :: ps, c :: t => p != c || mismatch ps t
   | _, _ => false
 
-/-- no position of the text starts (or could start, once more text follows) a match of `\beval\(` -/
+/-- the text cannot be the beginning of a match of `eval\s*\(`, whatever follows it: it differs from `eval`, or
+    after `eval` and white space it continues with a character other than `(` -/
+def noStart (s : Str) : Bool :=
+  mismatch evalWord s ||
+  (match dropPrefix? evalWord s with
+   | some t => (match t.dropWhile isSpace with | c :: _ => c != '(' | [] => false)
+   | none => false)
+
+/-- no position of the text starts (or could start, once more text follows) a match of `\beval\s*\(` -/
 def quietE : Bool → Str → Bool
   | _, [] => true
-  | pw, c :: t => (pw || mismatch evalLit (c :: t)) && quietE (isWord c) t
+  | pw, c :: t => (pw || noStart (c :: t)) && quietE (isWord c) t
 
 /-- the same for the text after the last `eval()` (nothing follows it) -/
 def quietEnd : Bool → Str → Bool
   | _, [] => true
   | pw, c :: t => (pw || (evalAt (c :: t)).isNone) && quietEnd (isWord c) t
 
-/-- hypotheses of the `eval` theorems: the texts between the calls contain nothing that looks like one,
-    each call starts at a word boundary, names contain no `)` -/
-def okEvals : Bool → List (Str × Str) → Str → Bool
+/-- no white space at either end -/
+def trimmed (x : Str) : Bool :=
+  (match x with | c :: _ => !isSpace c | [] => true) &&
+  (match x.reverse with | c :: _ => !isSpace c | [] => true)
+
+/-- hypotheses of the `eval` theorems: the texts between the calls contain nothing that looks like one, each
+    call starts at a word boundary, the gaps inside a call are white space, names contain no `)` and carry no
+    white space at their ends -/
+def okEvals : Bool → List EvalCall → Str → Bool
   | pw, [], tail => quietEnd pw tail
-  | pw, (pre, name) :: rest, tail =>
-    quietE pw pre && !lastWord pw pre && !name.contains ')' && okEvals false rest tail
+  | pw, c :: rest, tail =>
+    quietE pw c.pre && !lastWord pw c.pre && c.ws1.all isSpace && c.ws2.all isSpace && c.ws3.all isSpace &&
+    !c.name.contains ')' && trimmed c.name && okEvals false rest tail
 
 end Casbin.Matcher
